@@ -3,6 +3,7 @@
 package otr3
 
 import (
+	"fmt"
 	"math/big"
 	"time"
 )
@@ -120,7 +121,7 @@ type VerifTLV struct {
 	Value        []byte
 }
 
-func toVerifTLV(t tlv) VerifTLV { return VerifTLV{t.tlvType, t.tlvLength, t.tlvValue} }
+func toVerifTLV(t tlv) VerifTLV  { return VerifTLV{t.tlvType, t.tlvLength, t.tlvValue} }
 func (t VerifTLV) internal() tlv { return tlv{t.Type, t.Length, t.Value} }
 
 // VerifTLVSer is tlv.serialize.
@@ -374,7 +375,7 @@ func VerifPeekTLVs(c *Conversation, m ValidMessage) (plain []byte, ts []VerifTLV
 
 // VerifKeyMaterial exposes the DH key window of a conversation (copies).
 type VerifKeyMaterial struct {
-	OurKeyID, TheirKeyID               uint32
+	OurKeyID, TheirKeyID              uint32
 	OurCurrentPriv, OurPreviousPriv   []byte
 	OurCurrentPub, OurPreviousPub     *big.Int
 	TheirCurrentPub, TheirPreviousPub *big.Int
@@ -392,4 +393,29 @@ func VerifKeys(c *Conversation) VerifKeyMaterial {
 		OurCurrentPriv: makeCopy(c.keys.ourCurrentDHKeys.priv), OurPreviousPriv: makeCopy(c.keys.ourPreviousDHKeys.priv),
 		OurCurrentPub: cp(c.keys.ourCurrentDHKeys.pub), OurPreviousPub: cp(c.keys.ourPreviousDHKeys.pub),
 		TheirCurrentPub: cp(c.keys.theirCurrentDHPubKey), TheirPreviousPub: cp(c.keys.theirPreviousDHPubKey)}
+}
+
+// VerifGlobalSlices reports length and capacity of the package-level byte slices (C20: a slice used as an
+// append prefix is shared memory as soon as it has spare capacity).
+func VerifGlobalSlices() map[string][2]int {
+	lc := func(b []byte) [2]int { return [2]int{len(b), cap(b)} }
+	return map[string][2]int{
+		"queryMarker":              lc(queryMarker),
+		"errorMarker":              lc(errorMarker),
+		"msgMarker":                lc(msgMarker),
+		"fragmentSeparator":        lc(fragmentSeparator),
+		"fragmentItagsSeparator":   lc(fragmentItagsSeparator),
+		"dsaKeyType":               lc(dsaKeyType),
+		"otrv2FragmentationPrefix": lc(otrv2FragmentationPrefix),
+		"otrv3FragmentationPrefix": lc(otrv3FragmentationPrefix),
+		"defaultResentPrefix":      lc(defaultResentPrefix),
+		"whitespaceTagHeader":      lc(whitespaceTagHeader),
+	}
+}
+
+// VerifGlobalSnapshot renders the package-level values a conversation reads, to compare before and after a run.
+func VerifGlobalSnapshot() string {
+	return fmt.Sprintf("%x|%x|%x|%x|%x|%x|%x|%x|%x|%x|%x|%x|%x|%x|%d|%v|%v", queryMarker, errorMarker, msgMarker, fragmentSeparator,
+		fragmentItagsSeparator, dsaKeyType, otrv2FragmentationPrefix, otrv3FragmentationPrefix, defaultResentPrefix,
+		whitespaceTagHeader, p, q, g1, pMinusTwo, len(tlvHandlers), timeoutLength, dontIgnoreFastRepeatQueryMessage)
 }
